@@ -802,6 +802,8 @@ def search(ctx, broken):
         r2 = correspond(ctx, ref=True)
         extra = [f for f in r2["failures"] if f.get("oracle") != "independent"
                  and f["signature"].startswith(("c20:trace", "c20:init"))]
+        if ind:   # the property's own oracles already produced a failing input: prefer those
+            extra = []
         for f in extra:
             f["oracle"] = "independent"
             f["kind"] = "violation"
